@@ -119,14 +119,14 @@ class GenericContextProvider(RoleProvider):
                         old_state_container.ContextAssociation == pm_types.ContextAssociation.ASSOCIATED
                         and proposed_st.ContextAssociation != pm_types.ContextAssociation.ASSOCIATED
                     ):
-                        proposed_st.UnbindingMdibVersion = mgr.new_mdib_version
-                        proposed_st.BindingEndTime = time.time()
+                        old_state_container.UnbindingMdibVersion = mgr.new_mdib_version
+                        old_state_container.BindingEndTime = time.time()
                     elif (
                         old_state_container.ContextAssociation != pm_types.ContextAssociation.ASSOCIATED
                         and proposed_st.ContextAssociation == pm_types.ContextAssociation.ASSOCIATED
                     ):
-                        proposed_st.BindingMdibVersion = mgr.new_mdib_version
-                        proposed_st.BindingStartTime = time.time()
+                        old_state_container.BindingMdibVersion = mgr.new_mdib_version
+                        old_state_container.BindingStartTime = time.time()
                         handles = self._mdib.xtra.disassociate_all(
                             entity,
                             unbinding_mdib_version=mgr.new_mdib_version,
